@@ -379,7 +379,7 @@ def evaluate(entry, n, a, b, self_masked=False, rhs_full=False, self_strided=Fal
     keep = []
     args, kinds = [], entry["args"]
     for j, k in enumerate(kinds):
-        v, ka = build_arg(k, 2 * n if (rhs_full and k.startswith("arr:")) else n, a + j + 1, b + 2 * j, ramp=(entry["kind"] == "subject-inplace"), strided=arg_strided)
+        v, ka = build_arg(k, 2 * n if (rhs_full and k.startswith(("arr:", "mask:"))) else n, a + j + 1, b + 2 * j, ramp=(entry["kind"] == "subject-inplace"), strided=arg_strided)
         args.append(v)
         keep.append(ka)
     strided_parent = None
@@ -401,7 +401,7 @@ def evaluate(entry, n, a, b, self_masked=False, rhs_full=False, self_strided=Fal
     for v, k in zip(args, kinds):
         if k.startswith(("arr:", "mask:")):
             cls = k.partition(":")[2]
-            step = 2 if (rhs_full and k.startswith("arr:")) else 1
+            step = 2 if (rhs_full and k.startswith(("arr:", "mask:"))) else 1
             arg_elems.append([clone(v[step * i]) if ARR[cls]["base"] == "obj" else v[step * i] for i in range(n)])
         else:
             arg_elems.append(v)
